@@ -168,10 +168,14 @@ def run(pid, cfg, tier, seed, workdir, already_broken):
     rs, _ = corr.run_batch(cfg.get("families", []), n, seed, os.path.join(workdir, "rand"))
     results += rs
     if cfg.get("stale"):
-        # weak memory, one site: the Relaxed first read of the fast path is answered with values the storage held
-        # earlier (the hook shim's Decision::Stale; the model follows with Stale.step_stale)
-        rs2, _ = corr.run_batch(cfg.get("families", []), max(8, n // 3), seed + 5, os.path.join(workdir, "stale"), policies=("stale",))
+        # weak memory, the loads the protocol does not trust: the Relaxed first read of the fast path ("stale"), and also the
+        # Relaxed slot scan, the Acquire look at in_use in check_cooldown and the Relaxed head read before the push loop
+        # ("stale2") are answered with values the location held earlier, within what coherence permits (the hook shim's
+        # Decision::Stale; the model follows with Stale2.step_stale2)
+        rs2, _ = corr.run_batch(cfg.get("families", []), max(8, n // 3), seed + 5, os.path.join(workdir, "stale"), policies=("stale", "stale2"))
         results += rs2
+        rs3, _ = corr.run_batch(["churn", "guards"], max(8, n // 3), seed + 6, os.path.join(workdir, "stale2"), policies=("stale2",))
+        results += rs3
         for sp in _scen_paths(["s24"]):
             for sd in range(1, 41 if tier == "quick" else 400):
                 results.append(corr.run_program(sp, sd, "stale", os.path.join(workdir, "stale-s24-%d" % sd), family="corpus"))
